@@ -90,10 +90,11 @@ func (d rawDump) id() string {
 }
 
 var dirSeq int64
+var dirPrefix = "w" // worker processes use their own prefix inside the shared scratch directory
 
 // copyStore copies a closed RocksDB directory (everything but the info LOGs).
 func copyStore(src, scratch string) string {
-	dst := filepath.Join(scratch, fmt.Sprintf("w%d.rdb", atomic.AddInt64(&dirSeq, 1)))
+	dst := filepath.Join(scratch, fmt.Sprintf("%s%d.rdb", dirPrefix, atomic.AddInt64(&dirSeq, 1)))
 	if err := os.Mkdir(dst, 0o755); err != nil {
 		vlib.Infra("copyStore: %v", err)
 	}
